@@ -219,7 +219,13 @@ func (s *Sorts) zero(t types.Type) string {
 		}
 		return sx(dtCtor(name), fs...)
 	case *types.Array:
-		return "((as const " + s.sortOf(t) + ") " + s.zero(u.Elem()) + ")"
+		z := s.zero(u.Elem())
+		if z == "0" || z == "false" {
+			return "((as const " + s.sortOf(t) + ") " + z + ")"
+		}
+		name := "zeroval$" + sortKey(s.sortOf(t))
+		s.rawDecl(name, "(declare-const "+name+" "+s.sortOf(t)+")\n(assert (forall ((i Int)) (! (= (select "+name+" i) "+z+") :pattern ((select "+name+" i)))))")
+		return name
 	}
 	return "0"
 }
